@@ -150,23 +150,27 @@ def execute(p, comp, layout, u0, st):
 # ---------------------------------------------------------------------------------------------------------
 # independent reference (Fractions) following the implementation's formulation in the scaled space
 # ---------------------------------------------------------------------------------------------------------
-def reference(key, layout, u0, st, swap):
+def reference(key, layout, u0, st, swap, num=F):
     """All outcomes the implementation's algorithm can produce (more than one only when an Armijo test is an exact
     tie).  swap=True: scaled bounds correctly ordered (intended); swap=False: images of lower/upper stored as they
-    come (the defect)."""
+    come (the defect).  num=float evaluates the same formulas in double precision (the defect signature must
+    reproduce the absorption that happens next to the 1e30 placeholders)."""
     n, m, c, a0, b, sc = key
-    a0 = fr(a0)
+    cv = (lambda v: v) if num is F else float
+    zero, one = cv(F(0)), cv(F(1))
+    a0 = cv(fr(a0))
+    u0 = [cv(v) for v in u0]
+    st = [cv(v) for v in st]
     lo, up = [], []          # scaled bounds per entry; None = the array holds -inf / +inf there
-    any_lo = any_up = False
     span, off = [], []
     for name, size, kw in declared(key, layout):
         for j in range(size):
-            r, r0 = kw['ref'][j], kw['ref0'][j]
+            r, r0 = cv(kw['ref'][j]), cv(kw['ref0'][j])
             s = r - r0
             span.append(s)
             off.append(r0)
-            l = (kw['lower'][j] - r0) / s if 'lower' in kw else None
-            u = (kw['upper'][j] - r0) / s if 'upper' in kw else None
+            l = (cv(kw['lower'][j]) - r0) / s if 'lower' in kw else None
+            u = (cv(kw['upper'][j]) - r0) / s if 'upper' in kw else None
             if swap and s < 0:
                 l, u = u, l
             lo.append(l)
@@ -176,13 +180,13 @@ def reference(key, layout, u0, st, swap):
     x0 = [(u0[i] - off[i]) / span[i] for i in range(n)]
     d = [st[i] / span[i] for i in range(n)]
     tgt = [u0[i] + st[i] for i in range(n)]
-    al = F(1) if c == 'BE' else a0
+    al = one if c == 'BE' else a0
     x = [x0[i] + al * d[i] for i in range(n)]
 
     # --- _enforce_bounds_* ---------------------------------------------------
     if any_lo or any_up:
         if m == 'vector':
-            d_alpha = F(0)
+            d_alpha = zero
             idx = [i for i in range(n) if d[i] != 0]
             if idx:
                 if any_lo:
@@ -199,13 +203,13 @@ def reference(key, layout, u0, st, swap):
         else:
             ch = []
             for i in range(n):
-                cl = (max(x[i], lo[i]) - x[i]) if lo[i] is not None else F(0)
-                cu = (min(x[i], up[i]) - x[i]) if up[i] is not None else F(0)
+                cl = (max(x[i], lo[i]) - x[i]) if lo[i] is not None else zero
+                cu = (min(x[i], up[i]) - x[i]) if up[i] is not None else zero
                 ch.append(cl + cu)
             x = [x[i] + ch[i] for i in range(n)]
             d = [d[i] + ch[i] / al for i in range(n)]
             if m == 'wall':
-                d = [F(0) if ch[i] != 0 else d[i] for i in range(n)]
+                d = [zero if ch[i] != 0 else d[i] for i in range(n)]
 
     def phys(xs):
         return [off[i] + span[i] * xs[i] for i in range(n)]
@@ -214,10 +218,10 @@ def reference(key, layout, u0, st, swap):
         return [phys(x)]
 
     # --- ArmijoGoldsteinLS._solve (squared norms: both sides are non-negative) ----
-    cc, rho = F(*C_AG), F(*RHO)
+    cc, rho = cv(F(*C_AG)), cv(F(*RHO))
     phi0 = sum(s_ * s_ for s_ in st)
     if phi0 == 0:
-        phi0 = F(1)
+        phi0 = one
 
     def phi2(xs):
         return sum((y - t) ** 2 for y, t in zip(phys(xs), tgt))
@@ -316,7 +320,10 @@ def _worker(items):
                 continue
             bad = judge(key, u0, st, exp, exact, obs)
             if bad:
-                sig = [[float(x) for x in w] for w in reference(key, layout, u0, st, False)]
+                try:
+                    sig = [[float(x) for x in w] for w in reference(key, layout, u0, st, False, float)]
+                except ArithmeticError:
+                    sig = []
                 rows[pos] = ('bad', bad, obs, sig)
         res.append(('ran', dict(cnt), rows))
     return res
